@@ -450,6 +450,25 @@ string Subprocess::communicate(
     throw runtime_error("Subprocess::communicate timed out");
   }
 
+  // The child has exited, but whatever it wrote just before exiting (or all of
+  // its output, if it exited before we first polled) may still be in the pipe
+  if (this->stdout_read_fd >= 0) {
+    make_fd_nonblocking(this->stdout_read_fd);
+    for (;;) {
+      string data(4096, '\0');
+      ssize_t bytes_read = ::read(this->stdout_read_fd, data.data(), data.size());
+      if (bytes_read > 0) {
+        data.resize(bytes_read);
+        stdout_bytes += bytes_read;
+        stdout_queue.emplace_back(std::move(data));
+      } else if ((bytes_read < 0) && (errno == EINTR)) {
+        continue;
+      } else {
+        break;
+      }
+    }
+  }
+
   if (stdout_queue.empty()) {
     return "";
   } else if (stdout_queue.size() == 1) {
